@@ -4,6 +4,7 @@ import signal
 
 from simkit.core import Result, h64
 from simkit.kernel import Sim, current_task
+from simkit import preempt
 from worlds import master
 
 ID = "C20"
@@ -56,13 +57,16 @@ def make_case(index, rng, tier):
         fault = {"op": rng.choice(["setgid", "setuid", "initgroups", "chown"]), "nth": rng.randrange(1, 5)}
     return {"user": user, "group": group, "initgroups": rng.randrange(2) == 0, "unix": rng.randrange(2) == 0,
             "workers": rng.randrange(1, 3), "events": evs, "fault": fault,
-            "buggify": {"fork_child_first": rng.randrange(2) == 0, "random_spawn_delay": rng.randrange(2) == 0}}
+            "buggify": {"pyticks": rng.randrange(3) == 0, "fork_child_first": rng.randrange(2) == 0, "random_spawn_delay": rng.randrange(2) == 0}}
 
 
 def run(case, choices):
     res = Result()
     sim = Sim(choices, max_steps=200000, max_time=200.0)
     sim.buggify = dict(case["buggify"])
+    if case["buggify"].get("pyticks"):
+        preempt.enable()
+        sim.py_ticks = True          # eval-breaker points inside gunicorn's Python code are delivery / pre-emption points too
     sim.passwd = {0: ("root", 0, [0]), 33: ("www-data", 33, [33, 4001]), 1: ("daemon", 1, [1]),
                   65534: ("nobody", 65534, [65534]), 1000: ("app", 1000, [1000, 2000, 2001])}
     bind = "unix:/run/g.sock" if case["unix"] else "127.0.0.1:8000"
